@@ -269,10 +269,29 @@ def run(c, col):
             data.read_calls[s] = rnp.zeros((N_READS[s], 1), dtype=int)
             data.read_dists[s] = reads[s]
             data.read_counts[s] = counts[s]
-        prog.call_sample_genotypes(data)
+        leak = None
+        if c.get("twice"):
+            # history independence: the same locus processed a second time by the same program object must give the same
+            # record, and neither the program object nor any module-level container may have been changed by the first pass
+            before = snapshot_state(prog)
+            prog.call_sample_genotypes(data)
+            prog.sumarise_vcf_record(data)
+            rec1 = data.format_vcf_record()
+            after = snapshot_state(prog)
+            data2 = prog._locus_data(locus, {s: [] for s in samples})
+            for s in samples:
+                data2.read_calls[s] = rnp.zeros((N_READS[s], 1), dtype=int)
+                data2.read_dists[s] = reads[s]
+                data2.read_counts[s] = counts[s]
+            prog.call_sample_genotypes(data2)
+            prog.sumarise_vcf_record(data2)
+            rec2 = data2.format_vcf_record()
+            leak = (diff_state(before, after), rec1, rec2)
+        else:
+            prog.call_sample_genotypes(data)
         out = {s: data.sampledata[FORMAT.GPM].get(s) for s in samples}
         gts = {s: data.sampledata[FORMAT.GT].get(s) for s in samples}
-        return F, reads, counts, gpm, log, samples, out, gts
+        return F, reads, counts, gpm, log, samples, out, gts, leak
 
     first = True
     for pr in E.explore(body, stats=col.stats):
@@ -284,7 +303,18 @@ def run(c, col):
         if first:
             col.reachable(pr.ctx)
             first = False
-        F, reads, counts, gpm, log, samples, out, gts = pr.value
+        F, reads, counts, gpm, log, samples, out, gts, leak = pr.value
+        if leak is not None:
+            changed, rec1, rec2 = leak
+            if changed:
+                col.fail(site, "state-leak", shape=dict(prog=prog_name), witness=dict(prog=prog_name, order=list(order), changed=changed[:4]),
+                         desc="processing a locus changed state that outlives it: %s" % "; ".join(changed[:3]))
+            elif rec1 != rec2:
+                col.fail(site, "history-dependence", shape=dict(prog=prog_name), witness=dict(prog=prog_name, order=list(order), first=rec1[:300], second=rec2[:300]),
+                         desc="the same locus processed twice by one program object gives two different records")
+            else:
+                col.ok("%s: a locus leaves the program object and every module-level container unchanged, and processing it again gives the identical record" % prog_name)
+            continue
         err, claims = verify(prog_name, F, reads, counts, gpm, log, samples, out, gts,
                              eqr=lambda a, b: E.real_term(a) == (b if z3.is_expr(b) else z3.RealVal(repr(b))), num=lambda x: E.to_float(x))
         w = dict(prog=prog_name, order=list(order))
@@ -854,3 +884,53 @@ def verify_loop(which, F, log, x, eqr):
         if b["sample_genotypes"] is not x["g3"] or b["sample_children"] is not x["children"] or b["llk_cache"] is not x["cache"] or b["step_type"] != 1:
             return "allele_step does not receive the sweep's state / children / cache / step_type", claims
     return None, claims
+
+
+
+# ====================================================================== state that outlives a locus (C08: "regardless of what was computed earlier")
+
+
+def _plain_repr(v, depth=0):
+    if depth > 4:
+        return "..."
+    if isinstance(v, dict):
+        return "{" + ", ".join("%s: %s" % (_plain_repr(k, depth + 1), _plain_repr(x, depth + 1)) for k, x in v.items()) + "}"
+    if isinstance(v, (list, tuple, set, frozenset)):
+        items = [_plain_repr(x, depth + 1) for x in v]
+        if isinstance(v, (set, frozenset)):
+            items = sorted(items)
+        return type(v).__name__ + "(" + ", ".join(items) + ")"
+    if isinstance(v, rnp.ndarray):
+        return "array(%s, %s)" % (v.shape, [str(x) for x in v.ravel()[:50]])
+    if isinstance(v, (int, float, str, bool, type(None))):
+        return repr(v)
+    if isinstance(v, E.Sym):
+        return str(v)
+    return "<%s>" % type(v).__name__ if callable(v) or isinstance(v, type(E)) else repr(v)[:200]
+
+
+def snapshot_state(prog):
+    """module-level containers of every loaded repository module and the program object's attributes, as comparable text"""
+    import sys
+
+    snap = {}
+    mods = dict(E._modules) if E.load is _ENGINE_LOAD else {k: m for k, m in sys.modules.items() if k.startswith("mchap.") and m is not None}
+    for name, mod in mods.items():
+        for k, v in list(vars(mod).items()):
+            if k.startswith("__") or not isinstance(v, (list, dict, set, rnp.ndarray)):
+                continue
+            if isinstance(v, rnp.ndarray) and v.size > 5000:
+                snap["%s.%s" % (name, k)] = "array %s sum=%r" % (v.shape, float(v.sum()) if v.dtype != object else None)
+            else:
+                snap["%s.%s" % (name, k)] = _plain_repr(v)
+    for k, v in vars(prog).items():
+        snap["program.%s" % k] = _plain_repr(v)
+    return snap
+
+
+def diff_state(a, b):
+    out = []
+    for k in sorted(set(a) | set(b)):
+        if a.get(k) != b.get(k):
+            out.append("%s: %s -> %s" % (k, (a.get(k) or "<absent>")[:120], (b.get(k) or "<absent>")[:120]))
+    return out
